@@ -747,6 +747,9 @@ def _CHAIN(inc, exc):
 
 
 MUTANTS = [
+    M("missing bases resolved from the source font's default layer through a ChainMap (seeded C14l)", "ufo2ft/filters/propagateAnchors.py", "PropagateAnchorsFilter.set_context",
+      "ctx.processed = set()", "ctx.processed = set()\nctx.glyphSet = ChainMap(glyphSet, font.layers.defaultLayer)", rule="R14.5",
+      also=(("ufo2ft/filters/propagateAnchors.py", "", "<append-module>", "from collections import ChainMap\n"),)),
     M("flattening memoised in a dict kept on the filter object and filled by the helper (seeded C15j)", "ufo2ft/filters/flattenComponents.py", "FlattenComponentsFilter.filter",
       "return _flattenGlyphComponents(glyph, self.context.glyphSet)", "return _note(_flattenGlyphComponents(glyph, self.context.glyphSet), glyph, self._flattened)", rule="R14.2",
       also=(("ufo2ft/filters/flattenComponents.py", "FlattenComponentsFilter", "<add-method>", "def start(self):\n    self._flattened = {}\n"),
